@@ -104,10 +104,16 @@ int main(int argc, char** argv) {
     std::string h;
     while (is >> h) specs.push_back(unhex(h));
     ++k;
+    // tag "A": the pair is tried in every zone (cases whose answer depends on the zone's transitions)
+    size_t nz = fixed.size() + rz.size();
+    for (size_t zi = 0; zi < (tag == "A" ? nz : 1); ++zi) {
     int z = 0;
     long zoff = 0;
     time_zone tz;
-    if (k % 4 == 3) { z = (int)(k / 4 % rz.size()) + 1; tz = rz[(size_t)z - 1]; }
+    if (tag == "A") {
+      if (zi < rz.size()) { z = (int)zi + 1; tz = rz[zi]; }
+      else { zoff = fixed[zi - rz.size()]; tz = fixed_time_zone(seconds(zoff)); }
+    } else if (k % 4 == 3) { z = (int)(k / 4 % rz.size()) + 1; tz = rz[(size_t)z - 1]; }
     else { zoff = fixed[(size_t)(k % fixed.size())]; tz = fixed_time_zone(seconds(zoff)); }
     TP t;
     detail::femtoseconds fs(0);
@@ -123,6 +129,7 @@ int main(int argc, char** argv) {
     out.emit("{\"e\":\"Parse\",\"fmt\":" + bj(fmt) + ",\"input\":" + bj(input) + ",\"z\":" + std::to_string(z) + ",\"zoff\":" + std::to_string(zoff) +
              ",\"ok\":" + (ok && !ub ? "1" : "0") + ",\"t\":" + W(ok && !ub ? t.time_since_epoch().count() : 0) + ",\"fs\":" +
              W(ok && !ub ? fs.count() : 0) + ",\"env\":" + env + ",\"ub\":" + std::to_string(ub) + "}");
+  }
   }
   fprintf(stderr, "drv_parse: %llu events\n", (unsigned long long)out.count);
   out.close();
